@@ -10,6 +10,7 @@ import (
 	"io"
 	"net"
 	"strings"
+	"sync/atomic"
 	"testing"
 	"time"
 
@@ -35,6 +36,7 @@ type Case struct {
 	Dials    int          `json:"dials"`
 	FreshTr  bool         `json:"fresh_transport,omitempty"` // a new UTransport (new socket) per dial, same spec value
 	CloseBy  string       `json:"close_by,omitempty"`        // "" = the client closes each connection; "server" = the server does, the client re-dials at once
+	SchedUs  int          `json:"sched_us,omitempty"`        // virtual microseconds that pass at every schedule point of the library (quic.VerifSchedHook)
 	Server   ServerCfg    `json:"server"`
 	RTTms    int          `json:"rtt_ms"`
 	EchoSize int          `json:"echo"`
@@ -64,6 +66,7 @@ func genCase(t *rapid.T) Case {
 	c.FreshTr = rapid.Bool().Draw(t, "fresh")
 	if rapid.IntRange(0, 2).Draw(t, "closeby") == 0 {
 		c.CloseBy = "server"
+		c.SchedUs = rapid.SampledFrom([]int{0, 50, 50}).Draw(t, "sched")
 	}
 	c.Server = ServerCfg{Retry: rapid.IntRange(0, 3).Draw(t, "retry") == 0, SmallWindows: rapid.IntRange(0, 3).Draw(t, "smallwin") == 0,
 		CIDLen: rapid.SampledFrom([]int{0, 0, 5, 8, 20}).Draw(t, "scid"), V1Only: rapid.Bool().Draw(t, "v1only")}
@@ -124,7 +127,23 @@ func serverConf(s ServerCfg) *quic.Config {
 	return q
 }
 
+// schedDelay is what the library's schedule points (build tag verif) sleep in virtual time: every other runnable
+// goroutine of the bubble runs before a connection changes its transport's routing table, which turns "the
+// application re-dialled a few instructions before the old connection touched the table" from a rare
+// preemption into the schedule of the case.
+var schedDelay atomic.Int64
+
+func init() {
+	quic.VerifSchedHook = func(string) {
+		if d := schedDelay.Load(); d > 0 {
+			time.Sleep(time.Duration(d))
+		}
+	}
+}
+
 func runCase(c Case, u *vf.Unit) *vf.Verdict {
+	schedDelay.Store(int64(c.SchedUs) * int64(time.Microsecond))
+	defer schedDelay.Store(0)
 	spec, err := c.Spec.Build()
 	if err != nil {
 		return vf.Bad("C02/harness/spec-build", "%v", err)
@@ -249,6 +268,9 @@ func runCase(c Case, u *vf.Unit) *vf.Verdict {
 			closeReq <- struct{}{}
 			<-rerr
 			u.Class("closed-by-server")
+			if c.SchedUs > 0 {
+				u.Class("sched-point-redial")
+			}
 		} else {
 			conn.CloseWithError(0, "")
 		}
